@@ -163,8 +163,24 @@ def bounded_status(pid, tier, seed, ops=None):
             for clause, detail in probs:
                 oid = "%s.B.status.%s.%s" % (pid, shape, clause)
                 violations.setdefault(oid, ({"op": op, "reply": raw.decode("latin-1")}, detail))
+    # two failing operations in a row on ONE client: the second reply's code/text must replace the first's
+    good = [(b'NO (QUOTA) "first"\r\n', b"QUOTA", b"first"), (b'NO "second"\r\n', b"", b"second"),
+            (b'NO (QUOTA/MAXSIZE) "third"\r\n', b"QUOTA/MAXSIZE", b"third"), (b"NO\r\n", b"", b""), (b'NO {6}\r\nfourth\r\n', b"", b"fourth")]
+    for (r1, c1, t1) in good:
+        for (r2, c2, t2) in good:
+            for op in ("deletescript", "getscript"):
+                evals += 1
+                shapes.add((op, "pair", r1, r2))
+                sock = CannedSocket([r1, r2])
+                c = client_on(sock)
+                run_op(c, op)
+                k2, v2 = run_op(c, op)
+                if k2 != "return" or c.errcode != c2 or c.errmsg != t2:
+                    oid = "%s.B.status.sequence.second-NO-replaces-the-first" % pid
+                    violations.setdefault(oid, ({"op": op, "replies": [r1.decode(), r2.decode()]},
+                                                "after %r then %r: %s %r, errcode %r errmsg %r (expected %r / %r)" % (r1, r2, k2, v2, c.errcode, c.errmsg, c2, t2)))
     return {"name": "status-replies", "bound": "8 operations x 3 statuses x 4 code shapes x 5 text shapes x value pool "
-            "(%d cases), one segment" % evals, "rule": "distinct = (operation, reply shape)", "evaluations": evals,
+            "+ pairs of NO replies on one client (%d cases), one segment" % evals, "rule": "distinct = (operation, reply shape)", "evaluations": evals,
             "distinct": len(shapes), "samples": samples, "exhaustive": True,
             "violations": [(oid, w, d) for oid, (w, d) in sorted(violations.items())]}
 
@@ -248,6 +264,7 @@ BODY_POOL = [
     ("empty", b""), ("lf-only", b"a\nb\n"), ("blank-lines", b"a\r\n\r\nb\r\n"), ("non-ascii", "# café\r\nkeep;\r\n".encode()),
     ("looks-like-OK", b"OK\r\nkeep;\r\n"), ("looks-like-NO", b"# x\r\nNO way\r\n"), ("looks-like-BYE", b"BYE\r\n"),
     ("first-line-sizelike", b"{1}\r\nx\r\n"), ("inner-sizelike", b"x\r\n{3}\r\ny\r\n"), ("quotes", b'"quoted"\r\n'),
+    ("trailing-spaces", b"keep;  \r\nstop; \t\r\n"), ("trailing-spaces-no-newline", b"keep;\r\nstop;  "),
     ("active-word", b"ACTIVE\r\n"), ("unicode-line-separators", "a\u2028b\u2029c\x0cd\x0be\x1cf\x85g\r\nz\r\n".encode("utf-8")), ("trailing-blank", b"keep;\r\n\r\n\r\n"), ("cr-only", b"a\rb\r"),
 ]
 NAME_POOL = ["main", "vacàtion", "with space", 'quo"te', "back\\slash", "{3}", "ACTIVE", "OK", "a ACTIVE", "x" * 3, "{5+}"]
